@@ -365,6 +365,214 @@ Definition info_eval (i : info) (s : state) : option extra * state :=
     end
   end.
 
+(* ------------------------------------------------------------------ combinator bodies *)
+(* Each combinator is a non-recursive function of the evaluators of its sub-parsers, so that the
+   interpreter below is only wiring and every body can be reasoned about on its own. *)
+Definition evaluator := state -> eres * state.
+
+(* ParseCommand::eval *)
+Definition cmd_body (name : bytes) (aliases : list bytes) (shorts : list char) (help : option doc)
+           (adjacent : bool) (m_sub : meta) (i_sub : info) (run : state -> sres * state)
+           (s : state) : eres * state :=
+  let names := (name :: aliases) ++ map utf8_encode_char shorts in
+  let '(hit, s1) := take_cmd_any names s in
+  if hit then
+    match current s1 with
+    | None => (RPanic P_set_scope, s1)      (* unreachable: take_cmd sets current *)
+    | Some cur =>
+      match set_scope s1 cur (sc_end s1) with
+      | None => (RPanic P_set_scope, s1)
+      | Some s2 =>
+        let s3 := set_path s2 (path s2 ++ [name]) in
+        if adjacent then
+          let '(a, b) := adjacently_available_from s3 (S (sc_start s3)) in
+          match set_scope s3 a b with
+          | None => (RPanic P_set_scope, s3)
+          | Some s4 =>
+            match run s4 with
+            | (SOk v, s5) =>
+              match set_scope s5 (sc_start s3) (sc_end s3) with
+              | Some s6 => (ROk v, s6)
+              | None => (RPanic P_set_scope, s5)
+              end
+            | (SFail f, s5) =>
+              match adjacent_scope s5 s3 with
+              | ASPanic => (RPanic P_adj_scope, s5)
+              | ASNone => (RErr (MsgParseFailure f), s5)
+              | ASSome na nb =>
+                match set_scope s3 na nb with
+                | None => (RPanic P_set_scope, s5)
+                | Some o1 =>
+                  match run o1 with
+                  | (SOk res, o2) =>
+                    match set_scope o2 (sc_start s5) (sc_end s5) with
+                    | Some o3 => (ROk res, o3)
+                    | None => (RPanic P_set_scope, o2)
+                    end
+                  | (SFail _, _) => (RErr (MsgParseFailure f), s5)
+                  | (SPanic w, o2) => (RPanic w, o2)
+                  | (SFuel, o2) => (RFuel, o2)
+                  end
+                end
+              end
+            | (SPanic w, s5) => (RPanic w, s5)
+            | (SFuel, s5) => (RFuel, s5)
+            end
+          end
+        else
+          match run s3 with
+          | (SOk v, s4) => (ROk v, s4)
+          | (SFail f, s4) => (RErr (MsgParseFailure f), s4)
+          | (SPanic w, s4) => (RPanic w, s4)
+          | (SFuel, s4) => (RFuel, s4)
+          end
+      end
+    end
+  else
+    (RErr (missing_msg (ICommand name (hd_error shorts) help m_sub i_sub) s1), s1).
+
+(* ParseOrElse::eval *)
+Definition or_body (eva evb : evaluator) (s : state) : eres * state :=
+  let '(ra, sa) := eva s in
+  match ra with
+  | RPanic w => (RPanic w, sa)
+  | RFuel => (RFuel, sa)
+  | _ =>
+    let '(rb, sb) := evb s in
+    match rb with
+    | RPanic w => (RPanic w, sb)
+    | RFuel => (RFuel, sb)
+    | _ =>
+      match this_or_that ra rb s sa sb with
+      | (inl true, s') => (ra, s')
+      | (inl false, s') => (rb, s')
+      | (inr e, s') => (RErr e, s')
+      end
+    end
+  end.
+
+Definition optional_body (ev : evaluator) (catch : bool) (s : state) : eres * state :=
+  match parse_option ev None s catch with
+  | (OSome v, _, s') => (ROk (VSome v), s')
+  | (ONone, _, s') => (ROk VNone, s')
+  | (OErr e, _, s') => (RErr e, s')
+  | (OPanic w, _, s') => (RPanic w, s')
+  | (OFuel, _, s') => (RFuel, s')
+  end.
+
+Definition many_body (ev : evaluator) (catch : bool) (s : state) : eres * state :=
+  match many_loop ev catch (loop_fuel s) None s [] with
+  | (ROk _, acc, s') => (ROk (VList (rev acc)), s')
+  | (r, _, s') => (r, s')
+  end.
+
+Definition some_body (ev : evaluator) (msg : bytes) (catch : bool) (s : state) : eres * state :=
+  match many_loop ev catch (loop_fuel s) None s [] with
+  | (ROk _, [], s') => (RErr (MsgParseSome msg), s')
+  | (ROk _, acc, s') => (ROk (VList (rev acc)), s')
+  | (r, _, s') => (r, s')
+  end.
+
+Definition count_body (ev : evaluator) (s : state) : eres * state :=
+  match count_loop ev (loop_fuel s) None s (remaining s) O None with
+  | (ROk _, n, _, s') => (ROk (VNum (Z.of_nat n)), s')
+  | (r, _, _, s') => (r, s')
+  end.
+
+Definition last_body (ev : evaluator) (s : state) : eres * state :=
+  match count_loop ev (loop_fuel s) None s (remaining s) O None with
+  | (ROk _, _, Some v, s') => (ROk v, s')
+  | (ROk _, _, None, s') => ev s'
+  | (r, _, _, s') => (r, s')
+  end.
+
+Definition fallback_with_body (ev : evaluator) (fb : val + bytes) (s : state) : eres * state :=
+  match ev s with
+  | (ROk r, s') => (ROk r, s')
+  | (RErr e, _) =>
+    if can_catch e
+    then match fb with inl v => (ROk v, s) | inr t => (RErr (MsgPureFailed t), s) end
+    else (RErr e, s)
+  | (r, s') => (r, s')
+  end.
+
+Definition fallback_body (ev : evaluator) (v : val) (s : state) : eres * state :=
+  fallback_with_body ev (inl v) s.
+
+Definition guard_body (ev : evaluator) (check : val -> bool) (msg : bytes) (s : state)
+  : eres * state :=
+  match ev s with
+  | (ROk t, s') => if check t then (ROk t, s') else (RErr (MsgGuardFailed (current s') msg), s')
+  | r => r
+  end.
+
+Definition parse_body (ev : evaluator) (f : val -> val + bytes) (s : state) : eres * state :=
+  match ev s with
+  | (ROk t, s') =>
+    match f t with
+    | inl r => (ROk r, s')
+    | inr e => (RErr (MsgParseFailed (current s') e), s')
+    end
+  | r => r
+  end.
+
+Definition map_body (ev : evaluator) (f : val -> val) (s : state) : eres * state :=
+  match ev s with
+  | (ROk t, s') => (ROk (f t), s')
+  | r => r
+  end.
+
+Definition hide_body (ev : evaluator) (s : state) : eres * state :=
+  match ev s with
+  | (RErr (MsgMissing _), s') => (RErr (MsgMissing []), s')
+  | r => r
+  end.
+
+(* one step of the closure built by construct! *)
+Definition con_reset (r : eres * state) : eres * state :=
+  let '(x, s') := r in (x, set_current s' None).
+
+(* OptionParser::run_subparser, given the outcome of the inner parser *)
+Definition run_sub_body (inf : info) (m : meta) (s : state) (res : eres * state) : sres * state :=
+  let no_args := Nat.eqb (remaining s) 0 in
+  let '(r, s1) := res in
+  match r with
+  | RPanic w => (SPanic w, s1)
+  | RFuel => (SFuel, s1)
+  | _ =>
+    let parser_failed :=
+      match r with
+      | ROk _ => false
+      | RErr (MsgParseFailure (FStdout _)) => false
+      | _ => true
+      end in
+    if parser_failed && i_help_if_no_args inf && no_args then
+      if invariant_ok m then (SFail (FStdout (HHelp (path s1) inf m false)), s1)
+      else (SPanic P_invariant, s1)
+    else
+      match r with
+      | RErr (MsgParseFailure f) => (SFail f, s1)
+      | _ =>
+        let finish (err : message) :=
+          match info_eval inf s1 with
+          | (Some (ExHelp detailed), s2) =>
+            if invariant_ok m then (SFail (FStdout (HHelp (path s2) inf m detailed)), s2)
+            else (SPanic P_invariant, s2)
+          | (Some (ExVersion v), s2) => (SFail (FStdout (HVersion v)), s2)
+          | (None, s2) => (SFail (FStderr err), s2)
+          end in
+        match r with
+        | ROk v =>
+          match first_item_ix s1 with
+          | Some ix => finish (MsgUnconsumed ix)
+          | None => (SOk v, s1)
+          end
+        | RErr e => finish e
+        | _ => (SPanic 0%N, s1)      (* unreachable *)
+        end
+      end
+  end.
+
 (* ------------------------------------------------------------------ the interpreter *)
 Fixpoint eval (p : parser) (s : state) {struct p} : eres * state :=
   match p with
@@ -373,165 +581,29 @@ Fixpoint eval (p : parser) (s : state) {struct p} : eres * state :=
   | PPos mv ty pos help => eval_pos mv ty pos help s
   | PAny mv help check anywhere => eval_any mv help check anywhere s
   | PCmd name aliases shorts help adjacent sub =>
-    let names := (name :: aliases) ++ map utf8_encode_char shorts in
-    let '(hit, s1) := take_cmd_any names s in
-    if hit then
-      match current s1 with
-      | None => (RPanic P_set_scope, s1)      (* unreachable: take_cmd sets current *)
-      | Some cur =>
-        match set_scope s1 cur (sc_end s1) with
-        | None => (RPanic P_set_scope, s1)
-        | Some s2 =>
-          let s3 := set_path s2 (path s2 ++ [name]) in
-          if adjacent then
-            let '(a, b) := adjacently_available_from s3 (S (sc_start s3)) in
-            match set_scope s3 a b with
-            | None => (RPanic P_set_scope, s3)
-            | Some s4 =>
-              match run_sub sub s4 with
-              | (SOk v, s5) =>
-                match set_scope s5 (sc_start s3) (sc_end s3) with
-                | Some s6 => (ROk v, s6)
-                | None => (RPanic P_set_scope, s5)
-                end
-              | (SFail f, s5) =>
-                match adjacent_scope s5 s3 with
-                | ASPanic => (RPanic P_adj_scope, s5)
-                | ASNone => (RErr (MsgParseFailure f), s5)
-                | ASSome na nb =>
-                  match set_scope s3 na nb with
-                  | None => (RPanic P_set_scope, s5)
-                  | Some o1 =>
-                    match run_sub sub o1 with
-                    | (SOk res, o2) =>
-                      match set_scope o2 (sc_start s5) (sc_end s5) with
-                      | Some o3 => (ROk res, o3)
-                      | None => (RPanic P_set_scope, o2)
-                      end
-                    | (SFail _, _) => (RErr (MsgParseFailure f), s5)
-                    | (SPanic w, o2) => (RPanic w, o2)
-                    | (SFuel, o2) => (RFuel, o2)
-                    end
-                  end
-                end
-              | (SPanic w, s5) => (RPanic w, s5)
-              | (SFuel, s5) => (RFuel, s5)
-              end
-            end
-          else
-            match run_sub sub s3 with
-            | (SOk v, s4) => (ROk v, s4)
-            | (SFail f, s4) => (RErr (MsgParseFailure f), s4)
-            | (SPanic w, s4) => (RPanic w, s4)
-            | (SFuel, s4) => (RFuel, s4)
-            end
-        end
-      end
-    else
-      (RErr (missing_msg (ICommand name (hd_error shorts) help (ometa_of sub) (oinfo_of sub)) s1),
-       s1)
+    cmd_body name aliases shorts help adjacent (ometa_of sub) (oinfo_of sub) (run_sub sub) s
   | PCon fields =>
     match fields with
     | PNil => (ROk (VTuple []), set_current s None)
     | PCons q PNil => eval q s
-    | _ => let '(r, s') := eval_con false fields s true [] None in (r, set_current s' None)
+    | _ => con_reset (eval_con false fields s true [] None)
     end
   | PAdj fields =>
-    eval_adjacent
-      (fun st => let '(r, s') := eval_con true fields st true [] None in (r, set_current s' None))
-      (first_item (con_meta fields)) s
-  | POr a b =>
-    let '(ra, sa) := eval a s in
-    match ra with
-    | RPanic w => (RPanic w, sa)
-    | RFuel => (RFuel, sa)
-    | _ =>
-      let '(rb, sb) := eval b s in
-      match rb with
-      | RPanic w => (RPanic w, sb)
-      | RFuel => (RFuel, sb)
-      | _ =>
-        match this_or_that ra rb s sa sb with
-        | (inl true, s') => (ra, s')
-        | (inl false, s') => (rb, s')
-        | (inr e, s') => (RErr e, s')
-        end
-      end
-    end
-  | POptional q catch =>
-    match parse_option (eval q) None s catch with
-    | (OSome v, _, s') => (ROk (VSome v), s')
-    | (ONone, _, s') => (ROk VNone, s')
-    | (OErr e, _, s') => (RErr e, s')
-    | (OPanic w, _, s') => (RPanic w, s')
-    | (OFuel, _, s') => (RFuel, s')
-    end
-  | PMany q catch =>
-    match many_loop (eval q) catch (loop_fuel s) None s [] with
-    | (ROk _, acc, s') => (ROk (VList (rev acc)), s')
-    | (r, _, s') => (r, s')
-    end
-  | PCollect q catch =>
-    match many_loop (eval q) catch (loop_fuel s) None s [] with
-    | (ROk _, acc, s') => (ROk (VList (rev acc)), s')
-    | (r, _, s') => (r, s')
-    end
-  | PSome q msg catch =>
-    match many_loop (eval q) catch (loop_fuel s) None s [] with
-    | (ROk _, [], s') => (RErr (MsgParseSome msg), s')
-    | (ROk _, acc, s') => (ROk (VList (rev acc)), s')
-    | (r, _, s') => (r, s')
-    end
-  | PCount q =>
-    match count_loop (eval q) (loop_fuel s) None s (remaining s) O None with
-    | (ROk _, n, _, s') => (ROk (VNum (Z.of_nat n)), s')
-    | (r, _, _, s') => (r, s')
-    end
-  | PLast q =>
-    match count_loop (eval q) (loop_fuel s) None s (remaining s) O None with
-    | (ROk _, _, Some v, s') => (ROk v, s')
-    | (ROk _, _, None, s') => eval q s'
-    | (r, _, _, s') => (r, s')
-    end
-  | PFallback q v _ =>
-    match eval q s with
-    | (ROk r, s') => (ROk r, s')
-    | (RErr e, _) => if can_catch e then (ROk v, s) else (RErr e, s)
-    | (r, s') => (r, s')
-    end
-  | PFallbackWith q fb _ =>
-    match eval q s with
-    | (ROk r, s') => (ROk r, s')
-    | (RErr e, _) =>
-      if can_catch e
-      then match fb with inl v => (ROk v, s) | inr t => (RErr (MsgPureFailed t), s) end
-      else (RErr e, s)
-    | (r, s') => (r, s')
-    end
-  | PGuard q check msg =>
-    match eval q s with
-    | (ROk t, s') => if check t then (ROk t, s') else (RErr (MsgGuardFailed (current s') msg), s')
-    | r => r
-    end
-  | PParse q f =>
-    match eval q s with
-    | (ROk t, s') =>
-      match f t with
-      | inl r => (ROk r, s')
-      | inr e => (RErr (MsgParseFailed (current s') e), s')
-      end
-    | r => r
-    end
-  | PMap q f =>
-    match eval q s with
-    | (ROk t, s') => (ROk (f t), s')
-    | r => r
-    end
-  | PHide q =>
-    match eval q s with
-    | (RErr (MsgMissing _), s') => (RErr (MsgMissing []), s')
-    | r => r
-    end
+    eval_adjacent (fun st => con_reset (eval_con true fields st true [] None))
+                  (first_item (con_meta fields)) s
+  | POr a b => or_body (eval a) (eval b) s
+  | POptional q catch => optional_body (eval q) catch s
+  | PMany q catch => many_body (eval q) catch s
+  | PCollect q catch => many_body (eval q) catch s
+  | PSome q msg catch => some_body (eval q) msg catch s
+  | PCount q => count_body (eval q) s
+  | PLast q => last_body (eval q) s
+  | PFallback q v _ => fallback_body (eval q) v s
+  | PFallbackWith q fb _ => fallback_with_body (eval q) fb s
+  | PGuard q check msg => guard_body (eval q) check msg s
+  | PParse q f => parse_body (eval q) f s
+  | PMap q f => map_body (eval q) f s
+  | PHide q => hide_body (eval q) s
   | PUsage q _ => eval q s
   | PGroupHelp q _ => eval q s
   | PPure v => (ROk v, set_current s None)
@@ -566,46 +638,7 @@ with eval_con (failfast : bool) (ps : plist) (s : state) (first : bool) (acc : l
 (* OptionParser::run_subparser (without the autocomplete hook) *)
 with run_sub (o : oparser) (s : state) {struct o} : sres * state :=
   match o with
-  | Options q inf =>
-    let no_args := Nat.eqb (remaining s) 0 in
-    let '(r, s1) := eval q s in
-    match r with
-    | RPanic w => (SPanic w, s1)
-    | RFuel => (SFuel, s1)
-    | _ =>
-      let parser_failed :=
-        match r with
-        | ROk _ => false
-        | RErr (MsgParseFailure (FStdout _)) => false
-        | _ => true
-        end in
-      let m := meta_of q in
-      if parser_failed && i_help_if_no_args inf && no_args then
-        if invariant_ok m then (SFail (FStdout (HHelp (path s1) inf m false)), s1)
-        else (SPanic P_invariant, s1)
-      else
-        match r with
-        | RErr (MsgParseFailure f) => (SFail f, s1)
-        | _ =>
-          let finish (err : message) :=
-            match info_eval inf s1 with
-            | (Some (ExHelp detailed), s2) =>
-              if invariant_ok m then (SFail (FStdout (HHelp (path s2) inf m detailed)), s2)
-              else (SPanic P_invariant, s2)
-            | (Some (ExVersion v), s2) => (SFail (FStdout (HVersion v)), s2)
-            | (None, s2) => (SFail (FStderr err), s2)
-            end in
-          match r with
-          | ROk v =>
-            match first_item_ix s1 with
-            | Some ix => finish (MsgUnconsumed ix)
-            | None => (SOk v, s1)
-            end
-          | RErr e => finish e
-          | _ => (SPanic 0%N, s1)      (* unreachable *)
-          end
-        end
-    end
+  | Options q inf => run_sub_body inf (meta_of q) s (eval q s)
   end.
 
 End WithEnv.
